@@ -1,6 +1,11 @@
-(* C15 — property theorems (work in progress: mkdirs and file_equals theorems follow). *)
+(* C15 — property theorems only.
+   zix_create_directories (FsModel.v: the zix_path_begin/next iterator with its index arithmetic and the
+   NUL-chopping walk, as coded) runs on the abstract tree file system of FsSpec.v (directories and regular
+   files, '.'/'..' resolution, mkdir with EEXIST/ENOENT/ENOTDIR).  zix_file_equals runs on two byte lists with
+   scripted reads.  NOT in the proved part: symbolic links, permissions, zix_symlink_type, zix_canonical_path,
+   zix_dir_for_each (compared with the direct libc calls by the driver only). *)
 From Coq Require Import ZArith List Bool Lia.
-From Zix Require Import CopySpec CopyModel FsSpec FsModel.
+From Zix Require Import CopySpec CopyModel FsSpec FsModel FsProofs FsProofs2 FsProofs3.
 Import ListNotations.
 Local Open Scope Z_scope.
 
@@ -31,3 +36,103 @@ Print Assumptions file_type_table_total.
 Theorem file_size_missing : file_size_of None = -1 /\ file_type_of None = FT_NONE.
 Proof. split; reflexivity. Qed.
 Print Assumptions file_size_missing.
+
+(* ---- zix_create_directories: for every file system state, every cwd, every path string (relative or
+   absolute, repeated or trailing separators, dot segments, partly existing, a file in the way) ---- *)
+Definition mkdirs (fs : fsT) (cwd : loc) (s : list Z) := create_directories true fs cwd s.
+
+(* SUCCESS exactly when the path then names a directory *)
+Theorem mkdirs_success_iff_directory : forall fs cwd s, nul_free s ->
+  fst (fst (mkdirs fs cwd s)) = SUCCESS <-> names_directory (snd (fst (mkdirs fs cwd s))) cwd s.
+Proof. exact mkdirs_iff. Qed.
+Print Assumptions mkdirs_success_iff_directory.
+
+(* idempotent: a second call succeeds and changes nothing *)
+Theorem mkdirs_idempotent : forall fs cwd s, nul_free s ->
+  fst (fst (mkdirs fs cwd s)) = SUCCESS ->
+  exists tr, mkdirs (snd (fst (mkdirs fs cwd s))) cwd s = (SUCCESS, snd (fst (mkdirs fs cwd s)), tr).
+Proof. exact mkdirs_idem. Qed.
+Print Assumptions mkdirs_idempotent.
+
+(* a component (the first k components resolve to it) exists and is a regular file: EXISTS, nothing created *)
+Theorem mkdirs_blocked_by_file : forall fs cwd s k x, nul_free s -> s <> [] ->
+  walk fs (start s cwd) (firstn k (components s)) = WFile x ->
+  fst (fst (mkdirs fs cwd s)) = EXISTS /\ snd (fst (mkdirs fs cwd s)) = fs.
+Proof. exact mkdirs_blocked. Qed.
+Print Assumptions mkdirs_blocked_by_file.
+
+(* the code is the component-wise "mkdir -p": same status, same resulting file system *)
+Theorem mkdirs_refines_spec : forall fs cwd s, nul_free s -> s <> [] ->
+  exists tr, mkdirs fs cwd s = (status_of (fst (mkdirs_spec fs cwd s)), snd (mkdirs_spec fs cwd s), tr).
+Proof. exact create_directories_refines. Qed.
+Print Assumptions mkdirs_refines_spec.
+
+(* allocation failure of the working copy: NO_MEM, nothing touched *)
+Theorem mkdirs_no_mem : forall fs cwd s, s <> [] -> create_directories false fs cwd s = (NO_MEM, fs, []).
+Proof. exact mkdirs_nomem. Qed.
+Print Assumptions mkdirs_no_mem.
+
+(* ---- zix_file_equals ---- *)
+(* two existing files with different inodes, an environment without short reads and I/O errors (script = []),
+   ANY page size, ANY answers of the allocator (both page buffers, or the 512-byte stack fall-back; a failed
+   allocation may leave any errno): true exactly when the bytes are identical; no descriptor stays open *)
+Theorem file_equals_iff_bytes : forall ia a ib b page al1 al2 errno0,
+  (0 < page)%nat -> ia <> ib ->
+  let r := file_equals false (Some (ia, a)) (Some (ib, b)) page al1 al2 errno0 [] in
+  (fst r = true <-> a = b) /\ e_open (snd r) = O.
+Proof.
+  intros ia a ib b page al1 al2 errno0 Hp Hi.
+  assert (H : negb (ia =? 0) && negb (ib =? 0) && (ia =? ib) = false)
+    by (destruct (Z.eqb_spec ia ib); [contradiction|apply andb_false_r]).
+  destruct (file_equals_bytes ia a ib b page al1 al2 errno0 Hp H) as [E O]. cbn zeta in *.
+  rewrite E. split; [apply list_eqb_eq|exact O].
+Qed.
+Print Assumptions file_equals_iff_bytes.
+
+(* symmetric *)
+Theorem file_equals_symmetric : forall ia a ib b page al1 al2 al1' al2' e e',
+  (0 < page)%nat -> ia <> ib ->
+  fst (file_equals false (Some (ia, a)) (Some (ib, b)) page al1 al2 e []) =
+  fst (file_equals false (Some (ib, b)) (Some (ia, a)) page al1' al2' e' []).
+Proof.
+  intros ia a ib b page al1 al2 al1' al2' e e' Hp Hi.
+  assert (H : forall x y, x <> y -> negb (x =? 0) && negb (y =? 0) && (x =? y) = false)
+    by (intros x y N; destruct (Z.eqb_spec x y); [contradiction|apply andb_false_r]).
+  destruct (file_equals_bytes ia a ib b page al1 al2 e Hp (H _ _ Hi)) as [E1 _].
+  destruct (file_equals_bytes ib b ia a page al1' al2' e' Hp (H _ _ (not_eq_sym Hi))) as [E2 _].
+  cbn zeta in *. rewrite E1, E2.
+  destruct (list_eqb a b) eqn:X; destruct (list_eqb b a) eqn:Y; try reflexivity.
+  - apply list_eqb_eq in X. subst. rewrite (proj2 (list_eqb_eq b b) eq_refl) in Y. discriminate.
+  - apply list_eqb_eq in Y. subst. rewrite (proj2 (list_eqb_eq a a) eq_refl) in X. discriminate.
+Qed.
+Print Assumptions file_equals_symmetric.
+
+(* the same file through two paths (hard link, symlink): true without reading *)
+Theorem file_equals_same_file : forall ia a b page al1 al2 errno0, ia <> 0 ->
+  let r := file_equals false (Some (ia, a)) (Some (ia, b)) page al1 al2 errno0 [] in
+  fst r = true /\ e_open (snd r) = O.
+Proof. exact file_equals_same_inode. Qed.
+Print Assumptions file_equals_same_file.
+
+(* one of two different paths does not exist: false, for every script and every allocator *)
+Theorem file_equals_missing_false : forall (fa fb : fileT) page al1 al2 errno0 script,
+  fa = None \/ fb = None -> fst (file_equals false fa fb page al1 al2 errno0 script) = false.
+Proof. exact file_equals_missing. Qed.
+Print Assumptions file_equals_missing_false.
+
+(* the no-short-read hypothesis is necessary: a short read on one file makes equal files compare unequal *)
+Theorem file_equals_short_read_refuted :
+  exists a script, fst (file_equals false (Some (1, a)) (Some (2, a)) 4 AOk AOk 0 script) = false.
+Proof. exists [1; 2; 3; 4; 5], [Full; Full; Full; Full; Short 2]. vm_compute. reflexivity. Qed.
+Print Assumptions file_equals_short_read_refuted.
+
+(* ---- hypotheses are satisfiable / the theorems are not vacuous ---- *)
+Example mkdirs_ex :
+  let fs := [([[97]], KDir); ([[97]; [120]], KFile)] in          (* a/  a/x *)
+  fst (fst (mkdirs fs [[97]] [46; 46; 47; 97; 47; 47; 98; 47; 46; 47; 99; 47])) = SUCCESS   (* from a: "../a//b/./c/" *)
+  /\ fst (fst (mkdirs fs [] [97; 47; 120; 47; 121])) = EXISTS.                             (* "a/x/y" *)
+Proof. vm_compute. split; reflexivity. Qed.
+Example file_equals_ex :
+  fst (file_equals false (Some (1, [1;2;3;4;5;6;7;8;9])) (Some (2, [1;2;3;4;5;6;7;8;0])) 4 (AFail 12) AOk 5 []) = false /\
+  fst (file_equals false (Some (1, [1;2;3;4;5;6;7;8;9])) (Some (2, [1;2;3;4;5;6;7;8;9])) 4 (AFail 12) AOk 5 []) = true.
+Proof. vm_compute. split; reflexivity. Qed.
